@@ -227,6 +227,26 @@ def bounded_pairs(tier, seed):
                 if out in ("merged", "broken"):
                     fails.append(dict(inputs=dict(scenario=f"{scope}:{a}/{b}:snake={snake}"), outcome=out,
                                       failed=["distinct-names-never-silently-merged"]))
+    # an operation whose module name coincides with a module of the package itself: refused, or both remain usable
+    from . import e2e
+    for op in ("exceptions", "Exceptions", "enums", "Client", "InputTypes", "base_model", "async_base_client", "fragments"):
+        cases += 1
+        sdl = "type Query { item: Item }\ntype Item { p: Int }\n"
+        try:
+            g = e2e.generate_client(sdl, f"fragment F on Item {{ p }} query {op} {{ item {{ ...F }} }}")
+        except Exception:       # noqa: refused
+            continue
+        try:
+            g.module()
+            for m in ("client", "exceptions", "enums", "input_types", "base_model", "async_base_client", "fragments"):
+                g.module(m)
+            g.module("exceptions").GraphQLClientHttpError
+            g.module("fragments").F
+        except Exception as e:  # noqa
+            fails.append(dict(inputs=dict(scenario=f"operation-vs-package-module:{op}"), outcome=f"{type(e).__name__}: {str(e)[:120]}",
+                              failed=["distinct-names-never-silently-merged"]))
+        finally:
+            g.cleanup()
     return dict(function="ariadne_codegen.main:client", name="bounded.name-pairs", kind="bounded stand-in (end-to-end, native)",
                 domain=f"{len(PAIRS)} pairs of distinct GraphQL names that map to one Python name x 4 scopes (input fields, response keys, "
                        "variables of one operation, values of one enum) x snake-case on/off",
@@ -258,7 +278,7 @@ def bounded_wire_names(tier, seed):
     var_defs = ", ".join(f"${n}: String" for n in WIRE_NAMES)
     var_use = ", ".join(f"{n}: ${n}" for n in WIRE_NAMES)
     q = (f"query Q($i: In, {var_defs}, $createdAfter: Stamp, $from_stamp: Stamp) {{ item(i: $i, {var_use}, createdAfter: $createdAfter, from_stamp: $from_stamp) "
-         f"{{ {' '.join(WIRE_NAMES)} e }} }}")
+         f"{{ {' '.join(WIRE_NAMES)} e firstCopy: plain second_copy: plain }} }}")
     cases, fails = 0, []
     for snake in (True, False):
         cases += 1
@@ -274,7 +294,7 @@ def bounded_wire_names(tier, seed):
             m.par = lambda v: "par:" + str(v)
             sys.modules["pyvc_stamp"] = m
             sent = []
-            data = {"item": dict({n: "v-" + n for n in WIRE_NAMES}, e="from")}
+            data = {"item": dict({n: "v-" + n for n in WIRE_NAMES}, e="from", firstCopy="c1", second_copy="c2")}
 
             def handler(request):
                 sent.append(json.loads(request.content))
@@ -312,6 +332,9 @@ def bounded_wire_names(tier, seed):
             wrong = [n for n in WIRE_NAMES if n in falias and getattr(item, falias[n]) != "v-" + n]
             if wrong:
                 bad.append(f"response-values-readable-under-the-mapped-name: {wrong}")
+            for k2, v2 in (("firstCopy", "c1"), ("second_copy", "c2")):
+                if k2 not in falias or getattr(item, falias[k2]) != v2:
+                    bad.append(f"two-aliases-of-one-field-both-readable: {k2}")
             en = g.module("enums").E
             if {x.value for x in en} != {"from", "class", "_x", "Plain"}:
                 bad.append("enum-values-keep-their-graphql-names")
